@@ -645,5 +645,259 @@ example : cylTensorDivergence (fun n => (-1/4 : ℚ) + (n:ℚ) * (1/2)) (1/2) (1
     (by norm_num) (by norm_num) (by norm_num)).1
   rw [this]; simp [dquartic, coef5, dpoly4]; norm_num
 
+/-! ### polar and spherical grids: the remaining operators, all cells including those at the axis / origin -/
+
+/-- sampled field on one (radial) grid axis, component multi-index first -/
+def sampleF1 (F : List Int → K → K) (x0 h : K) : Arr K :=
+  fun idx => F (idx.take (idx.length - 1)) (x0 + ((idx.getD (idx.length - 1) 0 : Int) : K) * h)
+theorem sampleF1_s (F : List Int → K → K) (x0 h : K) (i : Int) :
+    sampleF1 F x0 h [i] = F [] (x0 + (i:K) * h) := rfl
+theorem sampleF1_v (F : List Int → K → K) (x0 h : K) (c i : Int) :
+    sampleF1 F x0 h [c, i] = F [c] (x0 + (i:K) * h) := rfl
+theorem sampleF1_t (F : List Int → K → K) (x0 h : K) (p q i : Int) :
+    sampleF1 F x0 h [p, q, i] = F [p, q] (x0 + (i:K) * h) := rfl
+
+/-- **polar and spherical gradient** of a quartic: `∂_r f + h²(c₃ + 4c₄ρ)` in the radial component, zero in the
+angular ones; no division by the radius - second order uniformly over all cells -/
+theorem radialGradient_poly (c : Nat → K) (x0 h : K) (i : Int) (ρ : K) (hρ : ρ = x0 + (i:K) * h) (hh : h ≠ 0) :
+    polarGradient .central h (sampleF1 (fun _ => quartic c) x0 h) 0 i = dquartic c ρ + h^2 * (c 3 + 4 * c 4 * ρ) ∧
+    polarGradient .central h (sampleF1 (fun _ => quartic c) x0 h) 1 i = 0 ∧
+    sphGradient .central h (sampleF1 (fun _ => quartic c) x0 h) 0 i = dquartic c ρ + h^2 * (c 3 + 4 * c 4 * ρ) ∧
+    sphGradient .central h (sampleF1 (fun _ => quartic c) x0 h) 1 i = 0 ∧
+    sphGradient .central h (sampleF1 (fun _ => quartic c) x0 h) 2 i = 0 := by
+  have e0i : x0 + (i:K) * h = ρ := hρ.symm
+  have e1i : x0 + ((i:K) + 1) * h = ρ + h := by rw [hρ]; ring
+  have e2i : x0 + ((i:K) - 1) * h = ρ - h := by rw [hρ]; ring
+  have e3i : x0 + ((i:K) + -1) * h = ρ - h := by rw [hρ]; ring
+  have key : d1 .central h (sampleF1 (fun _ => quartic c) x0 h) [i] 0 = Dc (quartic c) ρ h := by
+    atoms_split [d1, shift_single, sampleF1_s] [e0i, e1i, e2i, e3i]
+  refine ⟨?_, ?_, ?_, ?_, ?_⟩
+  · simp only [polarGradient, if_true]; rw [key, Dc_quartic _ c (fun _ => rfl) ρ h hh]
+  · simp [polarGradient]
+  · simp only [sphGradient, if_true]; rw [key, Dc_quartic _ c (fun _ => rfl) ρ h hh]
+  · simp [sphGradient]
+  · simp [sphGradient]
+
+/-- **polar divergence** `v_r' + v_r/ρ` and **plain spherical divergence** `v_r' + 2v_r/ρ` of a quartic radial component:
+the curvature term is exact, the remainder `h²(c₃ + 4c₄ρ)` is not divided by the radius - second order uniformly
+over all cells (including `ρ = h/2`) -/
+theorem radialDivergence_poly (F : List Int → K → K) (c : Nat → K) (hF : ∀ r, F [0] r = quartic c r)
+    (x0 h : K) (i : Int) (ρ : K) (hρ : ρ = x0 + (i:K) * h) (hh : h ≠ 0) (hr : ρ ≠ 0) :
+    polarDivergence (fun n => x0 + (n:K) * h) h (sampleF1 F x0 h) i
+      = dquartic c ρ + quartic c ρ / ρ + h^2 * (c 3 + 4 * c 4 * ρ) ∧
+    sphDivergence false .central (fun n => x0 + (n:K) * h) h (sampleF1 F x0 h) i
+      = dquartic c ρ + 2 * quartic c ρ / ρ + h^2 * (c 3 + 4 * c 4 * ρ) := by
+  have e0i : x0 + (i:K) * h = ρ := hρ.symm
+  have e1i : x0 + ((i:K) + 1) * h = ρ + h := by rw [hρ]; ring
+  have e2i : x0 + ((i:K) - 1) * h = ρ - h := by rw [hρ]; ring
+  have e3i : x0 + ((i:K) + -1) * h = ρ - h := by rw [hρ]; ring
+  constructor
+  · have split : polarDivergence (fun n => x0 + (n:K) * h) h (sampleF1 F x0 h) i = Dc (F [0]) ρ h + F [0] ρ / ρ := by
+      atoms_split [polarDivergence, sampleF1_v] [e0i, e1i, e2i, e3i]
+    rw [split, Dc_quartic _ c hF ρ h hh, hF]; ring
+  · have split : sphDivergence false .central (fun n => x0 + (n:K) * h) h (sampleF1 F x0 h) i
+        = Dc (F [0]) ρ h + 2 * F [0] ρ / ρ := by
+      atoms_split [sphDivergence, d1, shift, sampleF1_v, List.getD_cons_zero, List.getD_cons_succ, List.set_cons_succ,
+        List.set_cons_zero, Bool.false_eq_true, if_false] [e0i, e1i, e2i, e3i]
+    rw [split, Dc_quartic _ c hF ρ h hh, hF]; ring
+
+/-- **plain (non-conservative) spherical Laplacian, fields regular at the origin** (even in `r`): the remainder is
+`10 c₄ h²` - second order uniformly over all cells including the innermost (`ρ = h/2`) -/
+theorem sphLaplace_plain_even_uniform (h x0 c0 c2 c4 : K) (i : Int) (ρ : K) (hρ : ρ = x0 + (i:K) * h) (hh : h ≠ 0) (hr : ρ ≠ 0) :
+    sphLaplace false (fun k => x0 + (k:K) * h) h (sample1 (poly4 c0 0 c2 0 c4) x0 h) i =
+      (6*c2 + 20*c4*ρ^2) + h^2 * (10*c4) := by
+  rw [sphLaplace_plain_poly h x0 c0 0 c2 0 c4 i ρ hρ hh hr]
+  simp only [dpoly4, ddpoly4]
+  field_simp
+  ring
+
+/-- **conservative spherical divergence, fields regular at the origin** (`v_r = a₁ r + a₃ r³`, odd in `r`): the
+remainder `a₃ (52ρ² + 3h²)/(h² + 12ρ²)` has only the positive shell-volume denominator -/
+theorem sphDivergence_conservative_odd_uniform (h x0 a1 a3 : K) (i : Int) (ρ : K) (hρ : ρ = x0 + (i:K) * h)
+    (hh : h ≠ 0) (hr : ρ ≠ 0) (hv : h^2 + 12 * ρ^2 ≠ 0) :
+    sphDivergence true .central (fun k => x0 + (k:K) * h) h (sampleV (fun _ x => 0 + a1*x + 0*x^2 + a3*x^3) x0 h) i =
+      (3*a1 + 5*a3*ρ^2) + h^2 * (a3 * (52*ρ^2 + 3*h^2) / (h^2 + 12*ρ^2)) := by
+  rw [sphDivergence_conservative_poly h x0 0 a1 0 a3 i ρ hρ hh hr hv]
+  field_simp
+  ring
+
+
+/-- **polar tensor divergence**, all components quartics: `r`: `T_rr' + (T_rr - T_φφ)/ρ`, `φ`: `T_φr' + (T_rφ + T_φr)/ρ`;
+curvature terms exact, remainder `h²(c₃ + 4c₄ρ)` of the differentiated component - uniform over all cells -/
+theorem polarTensorDivergence_quartic_poly (F : List Int → K → K) (c : Int → Int → Nat → K)
+    (hF : ∀ p q r, F [p, q] r = quartic (c p q) r)
+    (x0 h : K) (i : Int) (ρ : K) (hρ : ρ = x0 + (i:K) * h) (hh : h ≠ 0) (hr : ρ ≠ 0) :
+    polarTensorDivergence (fun n => x0 + (n:K) * h) h (sampleF1 F x0 h) 0 i
+      = dquartic (c 0 0) ρ + (F [0, 0] ρ - F [1, 1] ρ) / ρ + h^2 * (c 0 0 3 + 4 * c 0 0 4 * ρ) ∧
+    polarTensorDivergence (fun n => x0 + (n:K) * h) h (sampleF1 F x0 h) 1 i
+      = dquartic (c 1 0) ρ + (F [0, 1] ρ + F [1, 0] ρ) / ρ + h^2 * (c 1 0 3 + 4 * c 1 0 4 * ρ) := by
+  have e0i : x0 + (i:K) * h = ρ := hρ.symm
+  have e1i : x0 + ((i:K) + 1) * h = ρ + h := by rw [hρ]; ring
+  have e2i : x0 + ((i:K) - 1) * h = ρ - h := by rw [hρ]; ring
+  constructor
+  · have split : polarTensorDivergence (fun n => x0 + (n:K) * h) h (sampleF1 F x0 h) 0 i
+        = Dc (F [0, 0]) ρ h + (F [0, 0] ρ - F [1, 1] ρ) / ρ := by
+      atoms_split [polarTensorDivergence, sampleF1_t] [e0i, e1i, e2i]
+    rw [split, Dc_quartic _ (c 0 0) (hF 0 0) ρ h hh]; ring
+  · have split : polarTensorDivergence (fun n => x0 + (n:K) * h) h (sampleF1 F x0 h) 1 i
+        = Dc (F [1, 0]) ρ h + (F [0, 1] ρ + F [1, 0] ρ) / ρ := by
+      atoms_split [polarTensorDivergence, sampleF1_t] [e0i, e1i, e2i]
+    rw [split, Dc_quartic _ (c 1 0) (hF 1 0) ρ h hh]; ring
+
+/-- **plain spherical tensor divergence**, all components quartics (components `(r, θ, φ)`) - uniform over all cells -/
+theorem sphTensorDivergence_plain_quartic_poly (F : List Int → K → K) (c : Int → Int → Nat → K)
+    (hF : ∀ p q r, F [p, q] r = quartic (c p q) r)
+    (x0 h : K) (i : Int) (ρ : K) (hρ : ρ = x0 + (i:K) * h) (hh : h ≠ 0) (hr : ρ ≠ 0) :
+    sphTensorDivergence false (fun n => x0 + (n:K) * h) h (sampleF1 F x0 h) 0 i
+      = dquartic (c 0 0) ρ + 2 * (F [0, 0] ρ - F [2, 2] ρ) / ρ + h^2 * (c 0 0 3 + 4 * c 0 0 4 * ρ) ∧
+    sphTensorDivergence false (fun n => x0 + (n:K) * h) h (sampleF1 F x0 h) 1 i
+      = dquartic (c 1 0) ρ + 2 * F [1, 0] ρ / ρ + h^2 * (c 1 0 3 + 4 * c 1 0 4 * ρ) ∧
+    sphTensorDivergence false (fun n => x0 + (n:K) * h) h (sampleF1 F x0 h) 2 i
+      = dquartic (c 2 0) ρ + (2 * F [2, 0] ρ + F [0, 2] ρ) / ρ + h^2 * (c 2 0 3 + 4 * c 2 0 4 * ρ) := by
+  have e0i : x0 + (i:K) * h = ρ := hρ.symm
+  have e1i : x0 + ((i:K) + 1) * h = ρ + h := by rw [hρ]; ring
+  have e2i : x0 + ((i:K) - 1) * h = ρ - h := by rw [hρ]; ring
+  refine ⟨?_, ?_, ?_⟩
+  · have split : sphTensorDivergence false (fun n => x0 + (n:K) * h) h (sampleF1 F x0 h) 0 i
+        = Dc (F [0, 0]) ρ h + 2 * (F [0, 0] ρ - F [2, 2] ρ) / ρ := by
+      atoms_split [sphTensorDivergence, sampleF1_t, Bool.false_eq_true, if_false] [e0i, e1i, e2i]
+    rw [split, Dc_quartic _ (c 0 0) (hF 0 0) ρ h hh]; ring
+  · have split : sphTensorDivergence false (fun n => x0 + (n:K) * h) h (sampleF1 F x0 h) 1 i
+        = Dc (F [1, 0]) ρ h + 2 * F [1, 0] ρ / ρ := by
+      atoms_split [sphTensorDivergence, sampleF1_t, Bool.false_eq_true, if_false] [e0i, e1i, e2i]
+    rw [split, Dc_quartic _ (c 1 0) (hF 1 0) ρ h hh]; ring
+  · have split : sphTensorDivergence false (fun n => x0 + (n:K) * h) h (sampleF1 F x0 h) 2 i
+        = Dc (F [2, 0]) ρ h + (2 * F [2, 0] ρ + F [0, 2] ρ) / ρ := by
+      atoms_split [sphTensorDivergence, sampleF1_t, Bool.false_eq_true, if_false] [e0i, e1i, e2i]
+    rw [split, Dc_quartic _ (c 2 0) (hF 2 0) ρ h hh]; ring
+
+/-- **plain spherical tensor double divergence, tensors regular at the origin** (`T_rr = a₀ + a₂r² + a₄r⁴`,
+`T_θθ = T_φφ = a₀ + b₂r² + b₄r⁴`: isotropic at `r = 0`, even): the remainder is the constant `h²(18a₄ - 8b₄)` -
+second order uniformly over all cells including the innermost -/
+theorem sphTensorDoubleDivergence_plain_regular_uniform (F : List Int → K → K) (a0 a2 a4 b2 b4 : K)
+    (h00 : ∀ r, F [0, 0] r = a0 + a2 * r^2 + a4 * r^4) (h22 : ∀ r, F [2, 2] r = a0 + b2 * r^2 + b4 * r^4)
+    (x0 h : K) (i : Int) (ρ : K) (hρ : ρ = x0 + (i:K) * h) (hh : h ≠ 0) (hr : ρ ≠ 0) :
+    sphTensorDoubleDivergence false (fun n => x0 + (n:K) * h) h (sampleF1 F x0 h) i
+      = (12 * a2 + 30 * a4 * ρ^2 - 6 * b2 - 10 * b4 * ρ^2) + h^2 * (18 * a4 - 8 * b4) := by
+  have e0i : x0 + (i:K) * h = ρ := hρ.symm
+  have e1i : x0 + ((i:K) + 1) * h = ρ + h := by rw [hρ]; ring
+  have e2i : x0 + ((i:K) - 1) * h = ρ - h := by rw [hρ]; ring
+  simp only [sphTensorDoubleDivergence, sampleF1_t, h00, h22, Bool.false_eq_true, if_false]
+  push_cast
+  simp only [e0i, e1i, e2i]
+  field_simp
+  ring
+
+/-- **conservative spherical tensor double divergence on the same regular tensors**: exact remainder for every cell.
+Its denominator is the positive `h² + 12ρ²`, but the numerator contains the `h`-independent term `6(a₂ - b₂)`: in
+cells with `ρ ~ h` the error does not vanish with `h` (known finding, cf. `Props/C01Axis.lean`), at every fixed
+distance from the origin it is `O(h²)` -/
+theorem sphTensorDoubleDivergence_conservative_regular_poly (F : List Int → K → K) (a0 a2 a4 b2 b4 : K)
+    (h00 : ∀ r, F [0, 0] r = a0 + a2 * r^2 + a4 * r^4) (h22 : ∀ r, F [2, 2] r = a0 + b2 * r^2 + b4 * r^4)
+    (x0 h : K) (i : Int) (ρ : K) (hρ : ρ = x0 + (i:K) * h) (hh : h ≠ 0) (hr : ρ ≠ 0) (hv : h^2 + 12 * ρ^2 ≠ 0) :
+    sphTensorDoubleDivergence true (fun n => x0 + (n:K) * h) h (sampleF1 F x0 h) i
+      = (12 * a2 + 30 * a4 * ρ^2 - 6 * b2 - 10 * b4 * ρ^2)
+        + h^2 * (2 * (3 * a2 + 9 * a4 * h^2 + 147 * a4 * ρ^2 - 3 * b2 - 6 * b4 * h^2 - 79 * b4 * ρ^2) / (h^2 + 12 * ρ^2)) := by
+  have e0i : x0 + (i:K) * h = ρ := hρ.symm
+  have e1i : x0 + ((i:K) + 1) * h = ρ + h := by rw [hρ]; ring
+  have e2i : x0 + ((i:K) - 1) * h = ρ - h := by rw [hρ]; ring
+  simp only [sphTensorDoubleDivergence, shellThird, sampleF1_t, h00, h22, if_true]
+  push_cast
+  simp only [e0i, e1i, e2i]
+  have e : ((ρ + h / 2) * (ρ + h / 2) * (ρ + h / 2) - (ρ - h / 2) * (ρ - h / 2) * (ρ - h / 2)) / 3
+      = h * (h^2 + 12 * ρ^2) / 12 := by ring
+  rw [e]
+  have hv' : h^2 + ρ^2 * 12 ≠ 0 := by rw [show h^2 + ρ^2 * 12 = h^2 + 12 * ρ^2 by ring]; exact hv
+  field_simp
+  ring
+
+/-- **conservative spherical tensor divergence (radial component) on the same regular tensors**: exact remainder
+`h²·2ρ(7a₂ + b₂ + 12a₄h² + 63a₄ρ² + b₄ρ²)/(h² + 12ρ²)` for every cell: `O(h²)` at fixed distance, but of size
+`~ h (7a₂ + b₂)/8` at `ρ = h/2` (first order, the known finding of `Props/C01Axis.lean`) -/
+theorem sphTensorDivergence_conservative_regular_poly (F : List Int → K → K) (a0 a2 a4 b2 b4 : K)
+    (h00 : ∀ r, F [0, 0] r = a0 + a2 * r^2 + a4 * r^4) (h22 : ∀ r, F [2, 2] r = a0 + b2 * r^2 + b4 * r^4)
+    (x0 h : K) (i : Int) (ρ : K) (hρ : ρ = x0 + (i:K) * h) (hh : h ≠ 0) (hr : ρ ≠ 0) (hv : h^2 + 12 * ρ^2 ≠ 0) :
+    sphTensorDivergence true (fun n => x0 + (n:K) * h) h (sampleF1 F x0 h) 0 i
+      = (2 * a2 * ρ + 4 * a4 * ρ^3) + 2 * ((a2 - b2) * ρ + (a4 - b4) * ρ^3)
+        + h^2 * (2 * ρ * (7 * a2 + 12 * a4 * h^2 + 63 * a4 * ρ^2 + b2 + b4 * ρ^2) / (h^2 + 12 * ρ^2)) := by
+  have e0i : x0 + (i:K) * h = ρ := hρ.symm
+  have e1i : x0 + ((i:K) + 1) * h = ρ + h := by rw [hρ]; ring
+  have e2i : x0 + ((i:K) - 1) * h = ρ - h := by rw [hρ]; ring
+  simp only [sphTensorDivergence, shellThird, sampleF1_t, h00, h22, if_true]
+  push_cast
+  simp only [e0i, e1i, e2i]
+  have e : ((ρ + h / 2) * (ρ + h / 2) * (ρ + h / 2) - (ρ - h / 2) * (ρ - h / 2) * (ρ - h / 2)) / 3
+      = h * (h^2 + 12 * ρ^2) / 12 := by ring
+  rw [e]
+  have hv' : h^2 + ρ^2 * 12 ≠ 0 := by rw [show h^2 + ρ^2 * 12 = h^2 + 12 * ρ^2 by ring]; exact hv
+  field_simp
+  ring
+
+
 end
+
+section ordered
+variable {K : Type} [Field K] [LinearOrder K] [IsStrictOrderedRing K]
+
+/-- the remainder coefficient of `sphDivergence_conservative_odd_uniform` is bounded independently of `h` and of the
+position (every cell, including the one at the origin): `≤ 13/3 |a₃| + 3 |a₃|` -/
+theorem sphDivergence_conservative_odd_remainder_bound (ρ h a3 : K) (hh : h ≠ 0) :
+    |a3 * (52*ρ^2 + 3*h^2) / (h^2 + 12*ρ^2)| ≤ (22/3) * |a3| := by
+  have hD : 0 < h^2 + 12*ρ^2 := by positivity
+  have hN : 0 ≤ 52*ρ^2 + 3*h^2 := by positivity
+  rw [abs_div, abs_of_pos hD, abs_mul, abs_of_nonneg hN, div_le_iff₀ hD]
+  nlinarith [abs_nonneg a3, sq_nonneg h, sq_nonneg ρ, mul_nonneg (abs_nonneg a3) (sq_nonneg h),
+    mul_nonneg (abs_nonneg a3) (sq_nonneg ρ)]
+
+/-- the remainder coefficient of `sphLaplace_conservative_even_uniform` is bounded independently of `h` and of the
+position (every cell): `≤ 52/3 |c₄|` -/
+theorem sphLaplace_conservative_even_remainder_bound (ρ h c4 : K) (hh : h ≠ 0) :
+    |(6*c4*h^2 + 136*c4*ρ^2) / (h^2 + 12*ρ^2)| ≤ (52/3) * |c4| := by
+  have hD : 0 < h^2 + 12*ρ^2 := by positivity
+  have e : 6*c4*h^2 + 136*c4*ρ^2 = c4 * (6*h^2 + 136*ρ^2) := by ring
+  have hN : 0 ≤ 6*h^2 + 136*ρ^2 := by positivity
+  rw [e, abs_div, abs_of_pos hD, abs_mul, abs_of_nonneg hN, div_le_iff₀ hD]
+  nlinarith [abs_nonneg c4, sq_nonneg h, sq_nonneg ρ, mul_nonneg (abs_nonneg c4) (sq_nonneg h),
+    mul_nonneg (abs_nonneg c4) (sq_nonneg ρ)]
+
+
+/-! #### the uniform clause in its final form: `|stencil - continuum| ≤ C h²` for EVERY cell (every `x0`, `i`, `h ≠ 0`,
+in particular `ρ = h/2`), `C` independent of the position and of `h`, for fields regular at the axis / origin -/
+
+theorem polarLaplace_even_uniform_bound (h x0 c0 c2 c4 : K) (i : Int) (ρ : K) (hρ : ρ = x0 + (i:K) * h) (hh : h ≠ 0) (hr : ρ ≠ 0) :
+    |polarLaplace (fun k => x0 + (k:K) * h) h (sample1 (poly4 c0 0 c2 0 c4) x0 h) i - (4*c2 + 16*c4*ρ^2)| ≤ 6 * |c4| * h^2 := by
+  rw [polarLaplace_even_uniform h x0 c0 c2 c4 i ρ hρ hh hr, add_sub_cancel_left, abs_mul, abs_mul,
+    abs_of_nonneg (sq_nonneg h), abs_of_pos (by norm_num : (0:K) < 6)]
+  exact le_of_eq (by ring)
+
+theorem sphLaplace_plain_even_uniform_bound (h x0 c0 c2 c4 : K) (i : Int) (ρ : K) (hρ : ρ = x0 + (i:K) * h) (hh : h ≠ 0) (hr : ρ ≠ 0) :
+    |sphLaplace false (fun k => x0 + (k:K) * h) h (sample1 (poly4 c0 0 c2 0 c4) x0 h) i - (6*c2 + 20*c4*ρ^2)| ≤ 10 * |c4| * h^2 := by
+  rw [sphLaplace_plain_even_uniform h x0 c0 c2 c4 i ρ hρ hh hr, add_sub_cancel_left, abs_mul, abs_mul,
+    abs_of_nonneg (sq_nonneg h), abs_of_pos (by norm_num : (0:K) < 10)]
+  exact le_of_eq (by ring)
+
+theorem sphLaplace_conservative_even_uniform_bound (h x0 c0 c2 c4 : K) (i : Int) (ρ : K) (hρ : ρ = x0 + (i:K) * h) (hh : h ≠ 0) :
+    |sphLaplace true (fun k => x0 + (k:K) * h) h (sample1 (poly4 c0 0 c2 0 c4) x0 h) i - (6*c2 + 20*c4*ρ^2)| ≤ (52/3) * |c4| * h^2 := by
+  have hv : h^2 + 12 * ρ^2 ≠ 0 := by positivity
+  rw [sphLaplace_conservative_even_uniform h x0 c0 c2 c4 i ρ hρ hh hv, add_sub_cancel_left, abs_mul,
+    abs_of_nonneg (sq_nonneg h)]
+  have := sphLaplace_conservative_even_remainder_bound ρ h c4 hh
+  nlinarith [sq_nonneg h]
+
+theorem sphDivergence_conservative_odd_uniform_bound (h x0 a1 a3 : K) (i : Int) (ρ : K) (hρ : ρ = x0 + (i:K) * h)
+    (hh : h ≠ 0) (hr : ρ ≠ 0) :
+    |sphDivergence true .central (fun k => x0 + (k:K) * h) h (sampleV (fun _ x => 0 + a1*x + 0*x^2 + a3*x^3) x0 h) i
+        - (3*a1 + 5*a3*ρ^2)| ≤ (22/3) * |a3| * h^2 := by
+  have hv : h^2 + 12 * ρ^2 ≠ 0 := by positivity
+  rw [sphDivergence_conservative_odd_uniform h x0 a1 a3 i ρ hρ hh hr hv, add_sub_cancel_left, abs_mul,
+    abs_of_nonneg (sq_nonneg h)]
+  have := sphDivergence_conservative_odd_remainder_bound ρ h a3 hh
+  nlinarith [sq_nonneg h]
+
+/-- non-vacuity: the innermost cell of a full sphere (`x0 = -h/2`, `i = 1`, `ρ = h/2`) with `h = 1/2` over `ℚ` -/
+example : |sphDivergence true .central (fun k => (-1/4 : ℚ) + (k:ℚ) * (1/2)) (1/2)
+      (sampleV (fun _ x => 0 + 2*x + 0*x^2 + 3*x^3) (-1/4) (1/2)) 1 - (3*2 + 5*3*(1/4)^2)| ≤ (22/3) * |3| * (1/2)^2 :=
+  sphDivergence_conservative_odd_uniform_bound (1/2) (-1/4) 2 3 1 (1/4) (by norm_num) (by norm_num) (by norm_num)
+
+end ordered
 end PdeVerif.Stencil
